@@ -300,3 +300,50 @@ def guarded_nonnull(fn, regs, use_instr):
             return True
         # same-block case cannot happen: br is a terminator
     return False
+
+
+# ---------------------------------------------------------------------------
+# dominating branch conditions
+
+
+def dominating_conditions(fn, block, pruned=None):
+    """conditions that hold whenever `block` executes: list of (cmp instr, truth) for every conditional
+    branch one of whose edges dominates the block (every entry->block path takes that edge).
+    switch edges are returned as ('switch', instr, set-of-case-values or ('default', all cases))."""
+    cfg = cfg_of(fn)
+    out = []
+    for b in fn.blocks.values():
+        t = b.term
+        if t.op == "br" and len(t.x["targets"]) == 2 and t.ops:
+            tn, en = t.x["targets"]
+            if tn == en:
+                continue
+            c = t.ops[0]
+            if c.kind != "reg":
+                continue
+            for edge, truth in ((tn, True), (en, False)):
+                if cfg.edge_dominates(b, fn.blocks[edge], block):
+                    for cmp_, tr in _flatten_cond(fn, c, truth):
+                        out.append((cmp_, tr))
+        elif t.op == "switch":
+            for tgt in t.x["targets"]:
+                if cfg.edge_dominates(b, fn.blocks[tgt], block):
+                    vals = [v for v, l in t.x["cases"] if l == tgt]
+                    if tgt == t.x["default"]:
+                        out.append((t, ("default", [v for v, _ in t.x["cases"]], vals)))
+                    else:
+                        out.append((t, ("cases", vals)))
+    return out
+
+
+def _flatten_cond(fn, c, truth):
+    d = fn.defs.get(c.v) if c.kind == "reg" else None
+    if d is None:
+        return []
+    if d.op in ("icmp", "fcmp"):
+        return [(d, truth)]
+    if d.op == "xor" and d.ops[1].kind == "int" and d.ops[1].v in (1, -1):
+        return _flatten_cond(fn, d.ops[0], not truth)
+    if d.op in ("trunc", "zext"):
+        return _flatten_cond(fn, d.ops[0], truth)
+    return []
